@@ -293,6 +293,29 @@ func (h *mgrHarness) observe(ev nats.BusEvent) {
 			}
 		}
 	case "dispatch":
+		if ev.Sub.ConnOf() == h.nc && strings.HasPrefix(ev.Msg.Subject, "up.") {
+			// By the documented convention a batch with empty origin on the client's own node, or with the client's
+			// id as origin, was authored by the client itself, which therefore already knows it: the harness issued
+			// it on the client's behalf and folds it for the client.  It is folded where the manager drops it, in
+			// the order of the client's subscription, so that it keeps its place among the callbacks (folding it
+			// when the store accepted it would put it ahead of older foreign points still on their way).
+			ch := strings.Split(ev.Msg.Subject, ".")
+			if len(ch) != 3 {
+				return
+			}
+			pts, err := data.PbDecodePoints(ev.Msg.Data)
+			if err != nil {
+				return
+			}
+			h.mu.Lock()
+			for _, in := range h.ins {
+				if in.Sub == ev.Sub && in.RunExit == 0 && !passesFilter(in.ID, ch[2], pts) {
+					_ = data.MergePoints(ch[2], pts, &in.Cur)
+				}
+			}
+			h.mu.Unlock()
+			return
+		}
 		if ev.Sub.ConnOf() != h.in.StoreNc {
 			return
 		}
@@ -617,16 +640,6 @@ func runMgr(prop string) func(s *Sim) {
 			// start-window bookkeeping for the open finding on the manager's fetch-then-subscribe race
 			if w.Refused == "" {
 				h.mu.Lock()
-				// by the documented convention a batch with empty origin on the client's own node, or with the
-				// client's id as origin, was authored by the client itself, which therefore already knows it:
-				// the harness issued it on the client's behalf and folds it for the client
-				if !w.Edge {
-					for _, ins := range h.ins {
-						if ins.RunExit == 0 && !passesFilter(ins.ID, w.NodeID, w.Pts) {
-							_ = data.MergePoints(w.NodeID, w.Pts, &ins.Cur)
-						}
-					}
-				}
 				h.accepted = append(h.accepted, accWrite{h.routeSeq, w.NodeID})
 				for _, ins := range h.ins {
 					if ins.SubRouted == 0 && (w.NodeID == ins.ID || tr.Ref.IsAncestorAny(ins.ID, w.NodeID)) {
